@@ -15,6 +15,10 @@ CHECKS = {
   technique="Lean 4 proof (omega over regenerated conversion kernels + hand model of the remaining legs) + differential correspondence with exact-rational oracle",
   text="The six cross-family timedelta conversions and the absolute-time conversions are proved to be floor / nearest functions with error strictly below the coarser unit, exact when representable, monotone, with bintime→hightime→bintime and datetime→hightime→datetime identities and OverflowError exactly when the destination range is exceeded; bintime legs are regenerated from the source each run. The real convert_timedelta/convert_datetime/Timing.to_* are compared with the model and with exact Fractions on edge-biased values, including tzinfo/fold handling and int/float/Decimal seconds.",
   note="Trusted: as C02 plus Model/Conv.lean (datetime.timedelta normalisation, the exactness of the 64-digit Decimal leg for hightime values, field-copy conversions). Float/Decimal legs and total_seconds are decided by the oracle against exact Fractions; IEEE and decimal-context rounding are assumed (partial). Calendar fields are C14's model."),
+ "C14": dict(
+  technique="Lean 4 proof (omega over regenerated field kernels, kernel-checked table + induction-free calendar proof of CPython's _ord2ymd) + differential correspondence (exhaustive over all ordinals in thorough)",
+  text="TimeDelta days/seconds/microseconds/femtoseconds/yoctoseconds (regenerated) are proved normalized and to add up to floor(ticks*10^24/2^64); the regenerated __str__ is proved equal to the normal-form rendering of the value rounded to 1e-18 s (carry included). For every DateTime tick in [min,max] year/month/day (CPython's ord2ymd, proved to invert ymd2ord and to return valid dates for all 3 652 059 ordinals) together with the regenerated hour..yoctosecond identify exactly floor(ticks*10^24/2^64) ys after the epoch, and rebuilding from the fields (and from repr's shortened argument list) returns the same ticks. The real properties, constructor, repr/eval and str are compared with the models and with an independent civil-from-days oracle.",
+  note="Trusted: as C02 plus Model/Calendar.lean (CPython's calendar algorithm; compared with date.fromordinal/toordinal, exhaustively in the thorough tier), Model/DtFields.lean (hightime ordinal arithmetic) and the text specification Model/TdText.lean (compared with str(datetime.timedelta)). str(DateTime) delegates to hightime/CPython and is decided by the oracle only."),
 }
 def main():
     checks = []
